@@ -5,6 +5,7 @@ import (
 	"errors"
 	"fmt"
 	"io"
+	"strconv"
 	"strings"
 
 	"github.com/cloudwego/eino/compose"
@@ -16,6 +17,7 @@ import (
 // St is the graph state used by stateful plans.
 type St struct {
 	N     int                       // number of handler / ProcessState invocations (commutative updates only)
+	B     int                       // of those: node bodies and post-handlers
 	Marks []string                  // who touched the state (order is schedule dependent, content is not)
 	Tag   string                    // run tag of the run that generated this state
 	ID    int                       // identity given by the generator function
@@ -315,8 +317,16 @@ func (b *builder) body(ctx context.Context, p *Plan, n *Node, full string, in M,
 		e.S.Yield("body:" + full)
 	}
 	if n.UseState {
+		failNow := n.FailInState && n.FailAt >= 0 && n.FailAt == e.doneCount[ck] && (n.FailTag == "" || n.FailTag == tag) &&
+			!(n.RerunN > 0 && idx < n.RerunN && b.store != nil)
 		err := compose.ProcessState[*St](ctx, func(ctx context.Context, st *St) error {
 			b.critical(ctx, st, "body:"+full, b.statePathOf(full))
+			if failNow {
+				rec.Failed = true
+				rec.End = e.Seq()
+				e.Faults["node_panic_inside_process_state"]++
+				panic(fmt.Sprintf("PANIC<%s#%d>", full, e.doneCount[ck]))
+			}
 			return nil
 		})
 		if err != nil {
@@ -366,6 +376,9 @@ func (b *builder) critical(ctx context.Context, st *St, who string, statePath st
 	v := st.N
 	e.S.Yield("crit:" + who)
 	st.N = v + 1
+	if !strings.HasPrefix(who, "pre:") {
+		st.B++
+	}
 	st.Marks = append(st.Marks, who)
 	if e.inCrit[st] != who {
 		e.problem("C11/mutual-exclusion", fmt.Sprintf("%s found %s in the critical section on leaving", who, e.inCrit[st]))
@@ -581,13 +594,20 @@ func (b *builder) nodeOpts(p *Plan, n *Node, full string) []compose.GraphAddNode
 				out = M{}
 			}
 			out["pre:"+n.Key] = "1"
+			if p.SeenState && st != nil {
+				out["seen:"+n.Key] = strconv.Itoa(st.B)
+			}
 			return out, nil
 		}))
 	case HStream:
 		opts = append(opts, compose.WithStreamStatePreHandler(func(ctx context.Context, in *schema.StreamReader[M], st *St) (*schema.StreamReader[M], error) {
 			e.HandlerLog = append(e.HandlerLog, fmt.Sprintf("%d pre %s %s", e.Seq(), tagOf(ctx), full))
 			b.critical(ctx, st, "pre:"+full, b.statePathOf(full))
-			extra := schema.StreamReaderFromArray([]M{{"pre:" + n.Key: "1"}})
+			chunk := M{"pre:" + n.Key: "1"}
+			if p.SeenState && st != nil {
+				chunk["seen:"+n.Key] = strconv.Itoa(st.B)
+			}
+			extra := schema.StreamReaderFromArray([]M{chunk})
 			return schema.MergeStreamReaders([]*schema.StreamReader[M]{in, extra}), nil
 		}))
 	}
